@@ -20,6 +20,8 @@ import (
 	"errors"
 	"fmt"
 	"math/rand/v2"
+	"net/http"
+	"net/http/httptest"
 	"reflect"
 	"runtime"
 	"sort"
@@ -30,6 +32,7 @@ import (
 	"testing"
 	"time"
 
+	"github.com/coder/websocket"
 	"github.com/high-moctane/mocrelay"
 	vk "github.com/high-moctane/mocrelay/internal/verifkit"
 	prom "github.com/prometheus/client_golang/prometheus"
@@ -1873,10 +1876,18 @@ func c19RunRacing(rep *vk.Report, gi, rounds int) {
 
 func TestVerif_C19(t *testing.T) {
 	rep := vk.NewReport(t, "C19", "exploration")
-	rep.Rule = "a group = one fresh registry + NewPrometheusMiddleware over the monitor's boundary handler; profiles: mixed (1-8 sessions, 3-10 rounds of 0-8 seeded operations per session: REQ/CLOSE/EVENT/COUNT/AUTH from the client, EOSE/EVENT/NOTICE/OK/AUTH/COUNT/CLOSED from the handler, 2-4 subscription ids shared by all sessions, sessions ended by cancel / inbound close / handler return at a seeded position), maxsubs (same, with a real NewMaxSubscriptionsMiddleware(1..3) below the boundary producing CLOSED), churn (150/400 rounds on one registry, 0-8 sessions starting and 0-8 ending simultaneously, REQ-heavy), burst (250/1000 rounds of 2-4 sessions released by a spin barrier into the middleware at the same instant, compared, then ended at the same instant, compared; no messages), racing (500/3000 rounds on 1-3 long-lived sessions: the client's CLOSE and the handler's CLOSED for the same open subscription - or REQ and CLOSED, or CLOSE and the session's end - are released by the spin barrier at the same instant with a seeded skew; the chain continues only after both were observed on their far sides). All operations of a round run concurrently; REQ/CLOSE/CLOSED of the same (session, id) are causally chained except for the racing pairs, whose two members are applied to the model together (CLOSE || CLOSED: ended once; REQ || CLOSED: open-or-ended, gauge accepted in a range of one until settled). One evaluation = one quiescent point at which Gather() is compared with both sides' records; non-trivial = live sessions or a subscription-set transition in the round; distinct = (profile, live sessions, open subscriptions, set of transition classes of the round)"
+	rep.Rule = "(relay) 2-5 WebSocket clients with identical upgrade-request headers on one Relay in front of the middleware, 6-19 acknowledged REQ/CLOSE steps, gauges compared after every step and after all have left; a group = one fresh registry + NewPrometheusMiddleware over the monitor's boundary handler; profiles: mixed (1-8 sessions, 3-10 rounds of 0-8 seeded operations per session: REQ/CLOSE/EVENT/COUNT/AUTH from the client, EOSE/EVENT/NOTICE/OK/AUTH/COUNT/CLOSED from the handler, 2-4 subscription ids shared by all sessions, sessions ended by cancel / inbound close / handler return at a seeded position), maxsubs (same, with a real NewMaxSubscriptionsMiddleware(1..3) below the boundary producing CLOSED), churn (150/400 rounds on one registry, 0-8 sessions starting and 0-8 ending simultaneously, REQ-heavy), burst (250/1000 rounds of 2-4 sessions released by a spin barrier into the middleware at the same instant, compared, then ended at the same instant, compared; no messages), racing (500/3000 rounds on 1-3 long-lived sessions: the client's CLOSE and the handler's CLOSED for the same open subscription - or REQ and CLOSED, or CLOSE and the session's end - are released by the spin barrier at the same instant with a seeded skew; the chain continues only after both were observed on their far sides). All operations of a round run concurrently; REQ/CLOSE/CLOSED of the same (session, id) are causally chained except for the racing pairs, whose two members are applied to the model together (CLOSE || CLOSED: ended once; REQ || CLOSED: open-or-ended, gauge accepted in a range of one until settled). One evaluation = one quiescent point at which Gather() is compared with both sides' records; non-trivial = live sessions or a subscription-set transition in the round; distinct = (profile, live sessions, open subscriptions, set of transition classes of the round)"
 	rep.Assume("counter values of a session that was cut while a message was between the two sides are accepted anywhere between 'observed on the far side' and 'taken by the middleware'")
 	rep.Assume("unknown message types (label UNDEFINED) and typed-nil messages are not generated; mocrelay_req_response_seconds is not judged")
 	defer rep.Finish()
+
+	// phase 0: the production path - sessions that come in through a Relay over WebSocket, from
+	// clients whose upgrade requests carry the very same headers (proxy ids, user agent)
+	nRelay := vk.N(4, 30)
+	vk.ParallelW(4, nRelay, func(i int) {
+		c19ThroughRelay(rep, i)
+	})
+	rep.Require(rep.Counter("relay_sessions") >= int64(nRelay*2), "sessions through a relay")
 
 	// phase 1: bursts, few groups at a time so that the spinning goroutines own their CPUs
 	nBurst := vk.N(20, 96)
@@ -1955,4 +1966,126 @@ func TestVerif_C19(t *testing.T) {
 	rep.Require(rep.Counter("inner_middleware_CLOSED") >= 100, "too few CLOSED messages from the real MaxSubscriptions middleware")
 	rep.Require(rep.SetSize("event_kinds") >= 8, "too few event kinds")
 	rep.Require(rep.SetSize("live_session_counts") >= 10, "too few distinct live-session counts")
+}
+
+// c19ThroughRelay: 2-5 WebSocket clients with identical request headers on one Relay whose
+// handler is Prometheus(sink); each opens and closes subscriptions (every step acknowledged by the
+// sink: EOSE for a REQ, COUNT for the COUNT that follows a CLOSE); at the quiescent points the
+// gauges must equal the number of connected clients and of subscriptions opened and not closed.
+func c19ThroughRelay(rep *vk.Report, i int) {
+	r := vk.RNG("C19/relay", i)
+	reg := prom.NewRegistry()
+	sink := mocrelay.HandlerFunc(func(ctx context.Context, send chan<- mocrelay.ServerMsg, recv <-chan mocrelay.ClientMsg) error {
+		for {
+			select {
+			case <-ctx.Done():
+				return ctx.Err()
+			case m, ok := <-recv:
+				if !ok {
+					return mocrelay.ErrRecvClosed
+				}
+				var reply mocrelay.ServerMsg
+				switch m := m.(type) {
+				case *mocrelay.ClientReqMsg:
+					reply = mocrelay.NewServerEOSEMsg(m.SubscriptionID)
+				case *mocrelay.ClientCountMsg:
+					reply = mocrelay.NewServerCountMsg(m.SubscriptionID, 0, nil)
+				default:
+					continue
+				}
+				select {
+				case send <- reply:
+				case <-ctx.Done():
+					return ctx.Err()
+				}
+			}
+		}
+	})
+	opt := mocrelay.NewDefaultRelayOption()
+	opt.RecvRateLimitRate, opt.RecvRateLimitBurst, opt.PingDuration = 1e9, 1<<30, 0
+	srv := httptest.NewServer(mocrelay.NewRelay(NewPrometheusMiddleware(reg)(sink), opt))
+	defer srv.Close()
+	hdr := http.Header{"X-Request-Id": {"req-" + strconv.Itoa(i)}, "X-Forwarded-For": {"203.0.113.7"}, "User-Agent": {"c19"}, "X-Correlation-Id": {"same"}, "Traceparent": {"00-0af7651916cd43dd8448eb211c80319c-b7ad6b7169203331-01"}}
+	nClients := 2 + r.IntN(4)
+	ctx, cancel := context.WithTimeout(context.Background(), 3*vk.WaitBound)
+	defer cancel()
+	conns := make([]*websocket.Conn, nClients)
+	for c := range conns {
+		conn, _, err := websocket.Dial(ctx, "ws"+strings.TrimPrefix(srv.URL, "http"), &websocket.DialOptions{HTTPHeader: hdr})
+		if err != nil {
+			rep.Inconclusive("C19: relay phase: dial failed: " + err.Error())
+			return
+		}
+		defer conn.CloseNow()
+		conns[c] = conn
+	}
+	roundTrip := func(c int, msg string, wantLabel string) bool {
+		if conns[c].Write(ctx, websocket.MessageText, []byte(msg)) != nil {
+			return false
+		}
+		for {
+			_, data, err := conns[c].Read(ctx)
+			if err != nil {
+				return false
+			}
+			if strings.HasPrefix(string(data), `["`+wantLabel+`"`) {
+				return true
+			}
+		}
+	}
+	open := make([]map[string]bool, nClients)
+	for c := range open {
+		open[c] = map[string]bool{}
+	}
+	compare := func(stage string, wantConn int) bool {
+		wantSubs := 0
+		for _, o := range open {
+			wantSubs += len(o)
+		}
+		var snap c19Snap
+		deadline := time.Now().Add(vk.WaitBound / 4)
+		for {
+			snap, _ = c19Gather(reg)
+			if int(snap.gauges["mocrelay_connection_count"]) == wantConn && int(snap.gauges["mocrelay_req_count"]) == wantSubs {
+				rep.Eval(1)
+				return true
+			}
+			if time.Now().After(deadline) {
+				break // every step was acknowledged long ago: the gauges were due
+			}
+			time.Sleep(time.Millisecond)
+		}
+		rep.Eval(1)
+		rep.Violation("gauge/through-relay", fmt.Sprintf("%s: %d clients with identical request headers on one relay, %d subscriptions opened and not closed; exported: connection gauge %v, subscription gauge %v", stage, wantConn, wantSubs, snap.gauges["mocrelay_connection_count"], snap.gauges["mocrelay_req_count"]),
+			map[string]any{"clients": nClients, "request_headers": hdr, "open_subscriptions_per_client": open})
+		return false
+	}
+	for step, n := 0, 6+r.IntN(14); step < n; step++ {
+		c := r.IntN(nClients)
+		sub := fmt.Sprintf("s%d", r.IntN(4))
+		if open[c][sub] && r.IntN(2) == 0 {
+			if conns[c].Write(ctx, websocket.MessageText, []byte(`["CLOSE","`+sub+`"]`)) != nil || !roundTrip(c, `["COUNT","barrier",{}]`, "COUNT") {
+				rep.Inconclusive("C19: relay phase: a client lost its connection")
+				return
+			}
+			delete(open[c], sub)
+		} else {
+			if !roundTrip(c, `["REQ","`+sub+`",{}]`, "EOSE") {
+				rep.Inconclusive("C19: relay phase: a client lost its connection")
+				return
+			}
+			open[c][sub] = true
+		}
+		if !compare(fmt.Sprintf("after step %d", step), nClients) {
+			return
+		}
+	}
+	for c := range conns {
+		conns[c].Close(websocket.StatusNormalClosure, "")
+		open[c] = map[string]bool{}
+	}
+	if compare("after all clients have left", 0) {
+		rep.Count("relay_sessions", int64(nClients))
+		rep.Nontrivial(fmt.Sprintf("relay/%d/%d", i, nClients))
+	}
 }
